@@ -104,10 +104,13 @@ class KGFnWrapper:
         return self.klong._backend.kg_asarray(x) if isinstance(x, list) else x
 
     def _apply(self, fn, args):
-        if len(args) != fn.arity:
-            raise RuntimeError(f"Klong function called with {len(args)} but expected {fn.arity}")
+        # a projection (f(1;) bound to a name) takes as many arguments as it has open slots
+        open_slots = sum(1 for a in fn.args if a is None) if has_none(fn.args) else 0
+        arity = open_slots if open_slots else fn.arity
+        if len(args) != arity:
+            raise RuntimeError(f"Klong function called with {len(args)} but expected {arity}")
         fn_args = [self._to_klong_arg(x) for x in args]
-        return self.klong.call(KGCall(fn.a, [*fn_args], fn.arity))
+        return self.klong.call(KGCall(fn if open_slots else fn.a, [*fn_args], arity))
 
     def __call__(self, *args, **kwargs):
         fn = self.fn
